@@ -490,7 +490,7 @@ pub struct ValidatorCall {
     pub value: Value,
 }
 
-pub const SLOTS: usize = 8;
+pub const SLOTS: usize = 12;
 thread_local! {
     static VERDICTS: RefCell<Vec<Verdict>> = RefCell::new(vec![Verdict::Accept; SLOTS]);
     static CALLS: RefCell<Vec<ValidatorCall>> = RefCell::new(Vec::new());
@@ -537,7 +537,7 @@ macro_rules! slot_fn {
         }
     };
 }
-slot_fn!(0, 1, 2, 3, 4, 5, 6, 7);
+slot_fn!(0, 1, 2, 3, 4, 5, 6, 7, 8, 9, 10, 11);
 
 // interning for the 'static bounds of PasetoParser::check_claim
 thread_local! {
@@ -1170,7 +1170,7 @@ pub enum Opened {
     Json(Value, Vec<ValidatorCall>),
 }
 
-/// One-shot present at any layer. At the parser layers a counting validator (slot 7) is registered
+/// One-shot present at any layer. At the parser layers a counting validator (slot 11) is registered
 /// under the custom key `vcount` so that "no validator ran" is observable.
 pub fn present(p: Proto, layer: Layer, key: &[u8], token: &str, footer: Option<&str>, assertion: Option<&str>) -> (Out<Opened>, usize) {
     if layer == Layer::Core {
@@ -1190,9 +1190,9 @@ pub fn present(p: Proto, layer: Layer, key: &[u8], token: &str, footer: Option<&
             ops.push(POp::Assertion(a.to_string()));
         }
     }
-    ops.push(POp::Validate("vcount".into(), 7));
+    ops.push(POp::Validate("vcount".into(), 11));
     ops.push(POp::Parse(0, 0));
-    set_verdict(7, Verdict::Accept);
+    set_verdict(11, Verdict::Accept);
     // PasetoParser::new() at the prelude layer: the default exp/nbf validators are C11/C12's business
     let ev = parse_history(p, layer, false, &[key.to_vec()], &[token.to_string()], &ops);
     match ev.into_iter().last() {
